@@ -160,7 +160,7 @@ CLAIMED = {
  },
  "C13": {
   "technique": "Lean 4 proof (policy-table theorems by decide over regenerated tables, detection theorems per constraint kind for all values, counterexample theorems) + edit-catalogue sweep with validated witnesses on the real analyser",
-  "text": ("Proof, partial: 45 theorems - the regenerated compatibility tables classify every narrowing code Breaking in its context (policy_sound_*, complete "
+  "text": ("Proof, partial: 46 theorems - the regenerated compatibility tables classify every narrowing code Breaking in its context (policy_sound_*, complete "
            "finite quantifier); CompareProps on two primitives of one type returns exactly the string / numeric / item-count group, and every narrowing kind the "
            "analyser reads (min/maxLength, pattern, string enum shrink, minimum/maximum incl. exclusive, min/maxItems, type and format narrowing) yields a "
            "Narrowed/AddedConstraint/ChangedType/DeletedEnumValue entry for ALL values (detected_*); text mode exits non-zero once an entry is Breaking; "
@@ -168,7 +168,7 @@ CLAIMED = {
            "(known findings). param_change_reported_breaking lifts detection to the whole report for parameters: for EVERY pair of documents sharing an endpoint and "
            "a parameter on which CompareProps finds a narrowing code, every report Analyse returns contains a Breaking entry (the analyser only appends - Mono "
            "lemmas through every pass - and its loops reach every shared parameter), for every fuel and iteration order; two end-to-end instances "
-           "(maxLength, maximum); removed_endpoint_reported_breaking and added_required_param_reported_breaking do the same for the two structural edits; body_root_change_reported_breaking / body_property_change_reported_breaking for the request body (root of an inline schema, and a property of two inline objects). Deeper body sites, $ref and allOf are decided by the catalogue sweep: 330 (edit kind x site) entries per round on fresh random specs, "
+           "(maxLength, maximum); removed_endpoint_reported_breaking and added_required_param_reported_breaking do the same for the two structural edits; body_root_change_reported_breaking / body_property_change_reported_breaking for the request body (root of an inline schema, and a property of two inline objects); removed_response_reported_breaking for a response code that disappears. Deeper body sites, $ref and allOf are decided by the catalogue sweep: 330 (edit kind x site) entries per round on fresh random specs, "
            "witness validated accepted-before/rejected-after by go-openapi/validate, real report must contain a Breaking entry and exit non-zero."),
   "note": DIFF_NOTE,
  },
